@@ -13,9 +13,10 @@ import (
 
 // Ctx is what a property check receives.
 type Ctx struct {
-	P    *core.Prog
-	R    *report.Report
-	Tier string
+	P      *core.Prog
+	R      *report.Report
+	Tier   string
+	lender bool // this run only lends rules to another property's check: it borrows nothing itself
 }
 
 // PropertyFunc runs all rules of one property.
@@ -35,6 +36,128 @@ func Lookup(id string) PropertyFunc {
 		theProg = c.P
 		theClock = findClock(c.P)
 		f(c)
+		c.borrowShared(id)
+	}
+}
+
+// sharedRules: rules decided by one property's check that are necessary conditions of another property as well. They
+// are decided once and reported under both (id here → lender's rule id, and why the borrower needs it). Each entry was
+// added after a seeded change that breaks the borrowing property had been caught by the lender's rule only.
+var sharedRules = map[string][]struct{ as, from, rule, why string }{
+	"C01": {
+		{"C01-S1", "C19", "C19-R2", "a filter pruned together with its parent's subscribers stops matching"},
+		{"C01-S2", "C08", "C08-R8", "an unsubscribe stamped in the same tick as its subscribe is dropped and the session keeps receiving"},
+		{"C01-S3", "C17", "C17-R1", "filters and topics meet only if both are mount-qualified"},
+		{"C01-S4", "C17", "C17-R5", "two filters of one SUBSCRIBE sharing storage become the same filter"},
+		{"C01-S5", "C11", "C11-R6", "clean-up after a lost peer must remove that peer's subscriptions, not this node's"},
+	},
+	"C02": {
+		{"C02-S1", "C01", "C01-R4", "an acknowledged publish must be written once to every registered recipient"},
+		{"C02-S2", "C03", "C03-R1", "what is armed for retransmission is the delivery itself"},
+		{"C02-S3", "C17", "C17-R7", "publisher and subscriber of one tenant must land in the same mount point"},
+		{"C02-S4", "C11", "C11-R6", "clean-up after a lost peer must not remove the subscriptions of connected sessions"},
+	},
+	"C03": {
+		{"C03-S1", "C04", "C04-R9", "a timer lost in the timeout list is a delivery never retransmitted"},
+		{"C03-S2", "C04", "C04-R11", "a bucket popped but not drained loses its timers"},
+		{"C03-S3", "C11", "C11-R1", "an ended session that stays registered is retransmitted to for ever"},
+	},
+	"C04": {
+		{"C04-S1", "C03", "C03-R4", "entries expire only if the sweep runs on its own ticker"},
+		{"C04-S2", "C03", "C03-R5", "keys must be those of the registered session and identifier"},
+	},
+	"C05": {
+		{"C05-S1", "C14", "C14-R1", "the acknowledgement covers the destinations resolved for this very publish"},
+	},
+	"C06": {
+		{"C06-S1", "C04", "C04-R1", "an identifier is released by the one resolution of its entry"},
+		{"C06-S2", "C04", "C04-R2", "an entry removed but never resolved never returns its identifier"},
+		{"C06-S3", "C04", "C04-R11", "timers lost with a popped bucket never release their identifiers"},
+	},
+	"C07": {
+		{"C07-S1", "C10", "C10-R1", "retained state reaches a lagging node through the snapshot"},
+		{"C07-S2", "C10", "C10-R2", "clears travel in the snapshot too"},
+		{"C07-S3", "C17", "C17-R5", "a retained message must be stored under its own topic"},
+	},
+	"C08": {
+		{"C08-S1", "C09", "C09-R4", "a batch carrying N copies of one entry is not the set of updates"},
+		{"C08-S2", "C10", "C10-R3", "the snapshot is a batch too"},
+		{"C08-S3", "C19", "C19-R7", "the merge looks the local copy up in the trie: insert and look-up must stop at the same node"},
+	},
+	"C09": {
+		{"C09-S1", "C16", "C16-R11", "an entry keyed by the empty identifier is refused by every receiver"},
+		{"C09-S2", "C17", "C17-R4", "a filter without its mount-point level makes the mutator panic between write and broadcast"},
+	},
+	"C10": {
+		{"C10-S1", "C16", "C16-R11", "an entry keyed by the empty identifier makes the receiver drop the rest of the snapshot"},
+		{"C10-S2", "C08", "C08-R1", "which entries count as removals is decided by the LWW predicates"},
+	},
+	"C11": {
+		{"C11-S1", "C08", "C08-R3", "the removal of a session record must survive the merge on every node"},
+		{"C11-S2", "C08", "C08-R3b", "one bad entry must not hide the removals that follow it in a batch"},
+		{"C11-S3", "C08", "C08-R6", "removed records are never listed"},
+		{"C11-S4", "C17", "C17-R3", "the teardown finds its own record by mount point and client identifier"},
+	},
+	"C12": {
+		{"C12-S1", "C08", "C08-R3", "the displaced record's removal and the new record must both survive the merge"},
+		{"C12-S2", "C08", "C08-R3b", "batches are merged entry by entry"},
+		{"C12-S3", "C08", "C08-R6", "the client identifier resolves to live records only"},
+		{"C12-S4", "C17", "C17-R3", "the client identifier is resolved within its mount point"},
+		{"C12-S5", "C10", "C10-R3", "the snapshot must carry each record, not N copies of one"},
+		{"C12-S6", "C11", "C11-R6", "clean-up after a lost peer must not delete the records of sessions taken over here"},
+		{"C12-S7", "C09", "C09-R5", "the removal of the displaced record must not be evicted from the gossip queue by the new record"},
+	},
+	"C13": {
+		{"C13-S1", "C11", "C11-R1", "the will is published by the teardown that the registry delete elects"},
+		{"C13-S2", "C11", "C11-R8", "a session that is never served is never torn down"},
+		{"C13-S3", "C10", "C10-R3", "survivors publish the wills of the records they hold"},
+		{"C13-S4", "C09", "C09-R5", "the tombstone of a cleanly ended session must reach the survivors"},
+		{"C13-S5", "C09", "C09-R1", "a tombstone that stays local lets survivors publish the will of a session that ended cleanly"},
+		{"C13-S6", "C20", "C20-R3", "two teardowns of one session must not both pass the registry test"},
+	},
+	"C14": {
+		{"C14-S1", "C08", "C08-R3", "destinations are computed from the replicated subscriptions"},
+		{"C14-S2", "C08", "C08-R3b", "batches of subscriptions are merged entry by entry"},
+		{"C14-S3", "C02", "C02-R1", "a failed destination withholds the acknowledgement"},
+		{"C14-S4", "C02", "C02-R8", "the hosting node must still hold what it has not yet written to its sessions"},
+	},
+	"C17": {
+		{"C17-S1", "C13", "C13-R3", "the will is published under the topic captured inside the session's mount point"},
+	},
+	"C18": {
+		{"C18-S1", "C20", "C20-R1", "a field cleared by a concurrent teardown is dereferenced by the writer, which nothing recovers"},
+	},
+}
+
+var lentCache = map[*core.Prog]map[string]*report.Report{}
+
+// borrowShared adopts into the report of property id the shared rules listed for it.
+func (c *Ctx) borrowShared(id string) {
+	if c.lender {
+		return
+	}
+	for _, sh := range sharedRules[id] {
+		if lentCache[c.P] == nil {
+			lentCache[c.P] = map[string]*report.Report{}
+		}
+		lr := lentCache[c.P][sh.from]
+		if lr == nil {
+			f := registry[sh.from]
+			if f == nil {
+				continue
+			}
+			lr = report.New(sh.from, c.Tier)
+			func() {
+				defer func() {
+					if e := recover(); e != nil {
+						lr.Rule(sh.from+"-PANIC", "the lending check panicked", "", 1)
+					}
+				}()
+				f(&Ctx{P: c.P, R: lr, Tier: c.Tier, lender: true})
+			}()
+			lentCache[c.P][sh.from] = lr
+		}
+		c.R.Adopt(lr, sh.rule, sh.as, sh.why)
 	}
 }
 
@@ -52,6 +175,7 @@ func IDs() []string {
 func Forget(p *core.Prog) {
 	delete(laCache, p)
 	delete(clockCache, p)
+	delete(lentCache, p)
 	mutMemo = map[*ssa.Function]int{}
 	lockWrappers = map[*ssa.Function]map[string]string{}
 	lockReleasers = map[*ssa.Function]map[string]bool{}
